@@ -128,6 +128,21 @@ static int run_fwd()
             memory_resource_adapter<log_leaf> r(log_leaf(0));
             void* p = r.allocate(a, b); r.deallocate(p, a, b);
         }
+        else if (op == "mra")
+        {   // the other direction: memory_resource_allocator over a recording resource (node requests, and arrays through the traits)
+            struct log_resource : memory_resource
+            {
+                log_leaf l{9};
+                void* do_allocate(std::size_t bytes, std::size_t al) override { l.rec("an", 1, bytes, al); return l.take(bytes, al > 4096 ? 4096 : al); }
+                void do_deallocate(void*, std::size_t bytes, std::size_t al) override { l.rec("dn", 1, bytes, al); }
+                bool do_is_equal(const memory_resource& o) const noexcept override { return this == &o; }
+            } res;
+            memory_resource_allocator mra(&res);
+            void* p = mra.allocate_node(a, b); mra.deallocate_node(p, a, b);
+            using tr = allocator_traits<memory_resource_allocator>;
+            void* q = tr::allocate_array(mra, 3, a, b); tr::deallocate_array(mra, q, 3, a, b);
+            std_allocator<Obj<24>, memory_resource_allocator> sa(mra); auto* o = sa.allocate(2); sa.deallocate(o, 2);
+        }
         else if (op == "uniq")
         {
             { auto p = allocate_unique<Obj<24>>(l0); }
